@@ -668,7 +668,7 @@ func init() {
 	})
 	Register(&Rule{
 		Name:  "R-ABANDONED-BUF",
-		Props: []string{"C01", "C02"},
+		Props: []string{"C01", "C02", "C03"},
 		Min:   6,
 		Doc: "a buffer whose read or write was abandoned is not handed to anybody else (F68): (helper) a function of internal/transfer that hands a []byte parameter to another goroutine (a go literal, or a job sent on a channel) which reads into it or writes it to a file, " +
 			"and that can return on its context's end before that goroutine is done, returns the error type that bufferAbandoned recognises on that path; (caller) where such a helper is called on a buffer taken from a pool, the error branch (and a deferred clean-up) does not Put the buffer directly - " +
@@ -979,6 +979,48 @@ func runAbandonedBuf(c *Ctx) {
 		if k == 0 {
 			c.Unknown("abandoned-buf/helper/"+h.Name, h.Pos(), "found no give-up return behind the hand-over of the buffer")
 		}
+		// the goroutine or pool worker that finishes an abandoned operation finds nobody waiting for its result: the channel it
+		// reports on has room for it (round 9)
+		nr := 0
+		InspectNoLits(h.Body, func(m ast.Node) bool {
+			as, ok := m.(*ast.AssignStmt)
+			if !ok || len(as.Lhs) != 1 || len(as.Rhs) != 1 {
+				return true
+			}
+			mk, ok := ast.Unparen(as.Rhs[0]).(*ast.CallExpr)
+			if !ok {
+				return true
+			}
+			if id, ok := ast.Unparen(mk.Fun).(*ast.Ident); !ok || id.Name != "make" || len(mk.Args) < 1 {
+				return true
+			}
+			if _, isChan := info.TypeOf(mk.Args[0]).Underlying().(*types.Chan); !isChan {
+				return true
+			}
+			chObj := ObjOf(info, as.Lhs[0])
+			// is it the result channel: received from in a select that also has the Done clause
+			used := false
+			InspectNoLits(h.Body, func(x ast.Node) bool {
+				if cc, ok := x.(*ast.CommClause); ok && cc.Comm != nil && ObjOf(info, commRecvExpr(cc)) == chObj {
+					used = true
+				}
+				return true
+			})
+			if !used {
+				return true
+			}
+			nr++
+			buffered := false
+			if len(mk.Args) >= 2 {
+				if v, ok := constInt(info, mk.Args[1]); ok && v >= 1 {
+					buffered = true
+				}
+			}
+			c.Check(buffered, fmt.Sprintf("abandoned-buf/helper/%s/result-channel#%d", h.Name, nr), mk.Pos(), "the result channel has room for a result nobody waits for",
+				h.Name+" creates its result channel without capacity: when the helper has given up (its context ended), the goroutine or pool worker that finishes the operation blocks for ever on the send - "+
+					"the read pool has at most four workers and is shared by all transfers of the process, so one cancelled transfer with reads queued leaves later transfers between healthy peers hanging")
+			return true
+		})
 	}
 	// (caller) no direct Put of the buffer in the error branch or in a deferred clean-up
 	nc := 0
@@ -1087,6 +1129,7 @@ func runAbandonedBuf(c *Ctx) {
 				return false
 			}
 			// a function the error branch hands buffer and error to must test the predicate in front of its Put
+			nerr := 0
 			checkRelease := func(body ast.Node) {
 				ast.Inspect(body, func(x ast.Node) bool {
 					c2, ok := x.(*ast.CallExpr)
@@ -1101,6 +1144,75 @@ func runAbandonedBuf(c *Ctx) {
 					for _, a := range c2.Args {
 						if rootObj(info, a) == broot {
 							carries = true
+						}
+					}
+					if carries {
+						// the error it is handed is the helper's own error value: not one made from its text in between (round 9)
+						for _, a := range c2.Args {
+							if t := info.TypeOf(a); t == nil || !isErrorType(t) {
+								continue
+							}
+							same := ObjOf(info, a) == errObj
+							if !same {
+								// a plain copy of it (var writeErr error; ...; writeErr = err)
+								if ao := ObjOf(info, a); ao != nil {
+									copies, other := 0, 0
+									for g := f; g != nil; g = g.Parent {
+										ast.Inspect(g.Body, func(y ast.Node) bool {
+											as2, ok := y.(*ast.AssignStmt)
+											if !ok {
+												return true
+											}
+											for i, l := range as2.Lhs {
+												if ObjOf(g.Info(), l) != ao || i >= len(as2.Rhs) {
+													continue
+												}
+												if ObjOf(g.Info(), as2.Rhs[i]) == errObj {
+													copies++
+												} else if types.ExprString(as2.Rhs[i]) != "nil" {
+													other++
+												}
+											}
+											return true
+										})
+									}
+									same = copies > 0 && other == 0
+								}
+							}
+							var remade ast.Node
+							if same {
+								ast.Inspect(f.Body, func(y ast.Node) bool {
+									as2, ok := y.(*ast.AssignStmt)
+									if !ok || as2.Pos() <= call.End() || as2.End() >= c2.Pos() {
+										return true
+									}
+									for i, l := range as2.Lhs {
+										if ObjOf(info, l) != errObj || i >= len(as2.Rhs) {
+											continue
+										}
+										// fmt.Errorf("... %w", ..., err) keeps the chain
+										keeps := false
+										if ec, ok := ast.Unparen(as2.Rhs[i]).(*ast.CallExpr); ok && calleeIs(info, ec, "fmt", "Errorf") && len(ec.Args) >= 2 {
+											if sv, isC := constString(info, ec.Args[0]); isC && strings.Contains(sv, "%w") {
+												keeps = true
+											}
+										}
+										if !keeps {
+											remade = as2
+										}
+									}
+									return true
+								})
+							}
+							nerr++
+							c.Check(same && remade == nil, fmt.Sprintf("abandoned-buf/caller/%s#%d/error-value#%d", f.Name, k, nerr), c2.Pos(), "the release is handed the helper's own error value",
+								"the error handed to "+func() string {
+									if h2 != nil {
+										return h2.Name
+									}
+									return "the release"
+								}()+" is not the value "+h.Name+" returned (it was made anew from its text, or another error is passed): errors.As no longer finds the mark that says the buffer may still be in use, "+
+									"the buffer goes back into the shared pool with the abandoned read still pending, and the next transfer's chunk is overwritten before its checksum is computed")
 						}
 					}
 					if !carries || released[h2] {
@@ -1538,5 +1650,82 @@ func runNoticeFromServer(c *Ctx) {
 	}
 	if ns == 0 {
 		c.Bad("notice-from-server/signed/none", token.NoPos, "found no envelope signed with protocol.ServerPeerID in cmd/thruserv")
+	}
+}
+
+// ---------------------------------------------------------------------------
+// Round 9 (DESIGN 8.18)
+
+func init() {
+	Register(&Rule{
+		Name:  "R-HANDOUT-LENGTH",
+		Props: []string{"C19", "C17"},
+		Min:   1,
+		Doc: "a chunk is handed to a worker with the length its own index gives it: every `return idx, length, true` of sendFileState.nextChunkToSend (and of a method of the same state it returns through) has length = chunkSizeForIndex(size, chunk size, idx) on that very idx - " +
+			"a re-sent chunk is not where the schedule's cursor is, so a length taken from the cursor's position (full chunks until the end is reached) gives the short last chunk of a file a full length: the sender reads past the end of the file and the resumed transfer fails on every retry",
+		Run: runHandoutLength,
+	})
+}
+
+func runHandoutLength(c *Ctx) {
+	p := c.P
+	f := p.Func("transfer.(*sendFileState).nextChunkToSend")
+	if f == nil {
+		c.MissingAnchor("transfer.(*sendFileState).nextChunkToSend")
+		return
+	}
+	n := 0
+	seen := map[*FuncInfo]bool{}
+	var visit func(g *FuncInfo, depth int)
+	visit = func(g *FuncInfo, depth int) {
+		if seen[g] || depth > 2 {
+			return
+		}
+		seen[g] = true
+		info := g.Info()
+		InspectNoLits(g.Body, func(m ast.Node) bool {
+			rs, ok := m.(*ast.ReturnStmt)
+			if !ok {
+				return true
+			}
+			if len(rs.Results) == 1 {
+				if call, isCall := ast.Unparen(rs.Results[0]).(*ast.CallExpr); isCall {
+					if h := p.CalleeInfo(info, call); h != nil && h.Body != nil && h.Decl != nil && h.Decl.Recv != nil {
+						visit(h, depth+1)
+					}
+				}
+				return true
+			}
+			if len(rs.Results) != 3 {
+				return true
+			}
+			if tv := info.Types[rs.Results[2]]; tv.Value == nil || tv.Value.String() != "true" {
+				return true
+			}
+			n++
+			key := fmt.Sprintf("handout-length/%s/return#%d", g.Name, n)
+			okLen := false
+			for _, d := range append([]ast.Expr{rs.Results[1]}, resolveExprs(g, rs.Results[1], 1)...) {
+				call, isCall := ast.Unparen(d).(*ast.CallExpr)
+				if !isCall || len(call.Args) != 3 {
+					continue
+				}
+				if h := p.CalleeInfo(info, call); h == nil || h.Name != "transfer.chunkSizeForIndex" {
+					continue
+				}
+				io, ro := ObjOf(info, StripConv(info, call.Args[2])), ObjOf(info, StripConv(info, rs.Results[0]))
+				if io != nil && io == ro {
+					okLen = true
+				}
+			}
+			c.Check(okLen, key, rs.Pos(), "the length handed out is chunkSizeForIndex of the index handed out",
+				g.Name+" hands out chunk "+types.ExprString(rs.Results[0])+" with length "+types.ExprString(rs.Results[1])+", which is not chunkSizeForIndex(size, chunk size, "+types.ExprString(rs.Results[0])+"): "+
+					"a chunk that is sent again is not where the schedule stands, so a length derived from the schedule's position gives the short last chunk of a file the length of a full one - (index, length) reaches past the end of the file")
+			return true
+		})
+	}
+	visit(f, 0)
+	if n == 0 {
+		c.Bad("handout-length/none", f.Pos(), "nextChunkToSend never hands out a chunk")
 	}
 }
